@@ -638,8 +638,10 @@ char* MemoryLeakDetector::allocateMemoryWithAccountingInformation(TestMemoryAllo
 
 char* MemoryLeakDetector::reallocateMemoryWithAccountingInformation(TestMemoryAllocator* /*allocator*/, char* memory, size_t size, const char* /*file*/, size_t /*line*/, bool allocatNodesSeperately)
 {
-    if (allocatNodesSeperately) return (char*) PlatformSpecificRealloc(memory, sizeOfMemoryWithCorruptionInfo(size));
-    else return (char*) PlatformSpecificRealloc(memory, sizeOfMemoryWithCorruptionInfo(size) + sizeof(MemoryLeakDetectorNode));
+    size_t sizeWithAccounting = sizeOfMemoryWithCorruptionInfo(size);
+    if (!allocatNodesSeperately) sizeWithAccounting += sizeof(MemoryLeakDetectorNode);
+    if (sizeWithAccounting == 0) sizeWithAccounting = 1; /* a platform realloc(p, 0) may release p and return NULL */
+    return (char*) PlatformSpecificRealloc(memory, sizeWithAccounting);
 }
 
 MemoryLeakDetectorNode* MemoryLeakDetector::createMemoryLeakAccountingInformation(TestMemoryAllocator* allocator, size_t size, char* memory, bool allocatNodesSeperately)
